@@ -306,6 +306,27 @@ InitRegistry ==
             other |-> COther, base |-> WireInts(EmptySnap), osz |-> <<>>]
 RegistryLaw == IF c.kind = "di" THEN TotalDeltaLaw ELSE TotalSnapLaw
 
+\* type numbers across the whole 16-bit range x {defined, undefined}: an item (in a snapshot) or an
+\* update (in a delta) of type t with and without its type-definition item (0, t). An undefined type
+\* >= 0x4000 is MissingUuidType for the whole range 0x4000..0xffff; whatever the code accepts goes
+\* through the follow-up operations.
+SweepTypes == {16383, 16384, 32767, 32768, 32769, 36864, 65535}
+TSnap(t, def) == (<<5, 1>> :> <<7>>) @@ (<<t, 3>> :> <<1>>) @@ (IF def THEN (<<TypeEx, t>> :> U1) ELSE EmptySnap)
+TBase == (<<5, 1>> :> <<7>>)
+InitTypeSweep ==
+  \E t \in SweepTypes, def \in BOOLEAN :
+    LET S == TSnap(t, def) IN
+    \/ c = [op |-> "parse", kind |-> "si", w |-> WireInts(S), adds2 |-> RegAdds2, other |-> COther, t |-> t, def |-> def]
+    \/ c = [op |-> "parse", kind |-> "sb", w |-> WireBytes(S), adds2 |-> RegAdds2, other |-> COther, t |-> t, def |-> def]
+    \/ c = [op |-> "parse", kind |-> "di", w |-> DeltaWire(Delta(TBase, S), OszSmall), adds2 |-> RegAdds2,
+            other |-> COther, base |-> WireInts(TBase), osz |-> OszPairs(OszSmall), t |-> t, def |-> def]
+    \/ c = [op |-> "parse", kind |-> "db", w |-> EncodeAll(DeltaWire(Delta(TBase, S), OszSmall)), adds2 |-> RegAdds2,
+            other |-> COther, base |-> WireInts(TBase), osz |-> OszPairs(OszSmall), t |-> t, def |-> def]
+TypeSweepLaw ==
+  /\ (IF c.kind \in {"di", "db"} THEN TotalDeltaLaw ELSE TotalSnapLaw)
+  /\ LET q == CheckRegistry(TSnap(c.t, c.def))
+     IN IF c.def \/ c.t < OffsetExt THEN q.ok ELSE ~q.ok /\ q.e = "MissingUuidType"
+
 \* ------------------------------------------------------------------ family big (real limits)
 \* n items of type ty (ids 0..n-1), lengths chosen so that the total number of data integers is `ints`
 BigSnap(ty, n, ints) ==
